@@ -257,7 +257,7 @@ fn rcv_step(rmask: u8, vmax: u64, own_digest: bool, with_ledger: bool) {
     if want(P_C14) || want(P_C01) {
         // property's own assumption: at least one op beyond the header fits
         if own_digest && !header_only {
-            assert!(st != DeltaStatus::Reject, "C14: delta computed from the receiver's own digest is refused");
+            assert!(st != DeltaStatus::Reject, "C01/C14: delta computed from the receiver's own digest is refused");
             assert!((st == DeltaStatus::ApplyAfterReset) == (rc.max < s.gc && rc.gc < s.gc), "C14: reset iff both frontier components are below the sender's watermark");
             if st == DeltaStatus::ApplyAfterReset { assert!(d.from == 0, "C14: reset delta starts from version 0"); }
             assert!((after.gc, after.max) > (rc.gc, rc.max), "C01/C14: applying the delta strictly advances (watermark, max version)");
@@ -438,10 +438,11 @@ fn snd_decision(two_members: bool) {
     kani::cover!(x_off && x_from == 0 && exm > 0, "reset decided for a known member");
     kani::cover!(x_sched, "member scheduled for deletion");
     kani::cover!(!x_in_digest && x_off, "member unknown to the peer");
-    assert!(n == (x_off as usize) + (y_off as usize), "C07/C12/C14: wrong set of members offered (scheduled-for-deletion or not-ahead members must be skipped, others offered)");
+    assert!(n <= (x_off as usize) + (y_off as usize), "C05/C07/C12: a member that is scheduled for deletion or not ahead of the digest was offered");
+    assert!(n >= (x_off as usize) + (y_off as usize), "C01/C14: a member that is ahead of the digest (and not scheduled for deletion) was not offered");
     let mut i = 0;
-    if x_off { assert!(off[i].0 == b'x' && off[i].1 == x_from && off[i].2 == xg && off[i].3 == xm, "C14: wrong start version for the sender-side reset decision"); i += 1; }
-    if y_off { assert!(off[i].0 == b'y' && off[i].1 == y_from && off[i].2 == yg && off[i].3 == ym, "C14: wrong start version for the sender-side reset decision (second member)"); }
+    if x_off { assert!(off[i].0 == b'x' && off[i].1 == x_from && off[i].2 == xg && off[i].3 == xm, "C01/C02/C14: wrong start version for the sender-side reset decision"); i += 1; }
+    if y_off { assert!(off[i].0 == b'y' && off[i].1 == y_from && off[i].2 == yg && off[i].3 == ym, "C01/C02/C14: wrong start version for the sender-side reset decision (second member)"); }
     std::mem::forget(cs); std::mem::forget(digest); std::mem::forget(sched);
 }
 
@@ -469,11 +470,11 @@ fn snd_content(mask: u8, vmax: u64) {
     let mut i = 0;
     for (k, vv) in sn.stale_key_values() {
         assert!(i < expect.n_stale, "C07: entry at or below the start version (or a duplicate) in the delta content");
-        assert!(k.len() == 1 && (k.as_bytes()[0] - b'a') as usize == expect.kv[i].key && vv.version == expect.kv[i].version && code_of(&vv.status) == expect.kv[i].status, "C07/C03: delta content differs from the sender's entries in version order");
+        assert!(k.len() == 1 && (k.as_bytes()[0] - b'a') as usize == expect.kv[i].key && vv.version == expect.kv[i].version && code_of(&vv.status) == expect.kv[i].status, "C03/C07: delta content differs from the sender's entries in version order");
         i += 1;
     }
     kani::cover!(expect.n_stale == 2, "two stale entries");
-    assert!(i == expect.n_stale, "C07: a stale entry is missing from the delta content (gap)");
+    assert!(i == expect.n_stale, "C02/C07: a stale entry is missing from the delta content (gap)");
     std::mem::forget(s);
 }
 
@@ -498,9 +499,9 @@ fn snd_full(mask: u8, vmax: u64) {
     let ops = unsafe { rec::REC };
     kani::cover!(e.present && e.n_kv < e.n_stale, "truncated between key-values");
     kani::cover!(e.present && e.n_stale == 0 && e.max > 0, "SetMaxVersion for an empty tail");
-    if !e.present { assert!(n == 0, "C07/C05: ops emitted although the sender is not ahead / nothing fits"); }
+    if !e.present { assert!(n == 0, "C05/C07: ops emitted although the sender is not ahead / nothing fits"); }
     else {
-        assert!(n >= 1 && ops[0].kind == rec::REC_NODE && ops[0].id0 == b'x' && ops[0].gc == e.gc && ops[0].from == e.from, "C14/C07: wrong member header");
+        assert!(n >= 1 && ops[0].kind == rec::REC_NODE && ops[0].id0 == b'x' && ops[0].gc == e.gc && ops[0].from == e.from, "C07/C14: wrong member header");
         if e.n_stale == 0 {
             if e.max > 0 { assert!(n == 2 && ops[1].kind == rec::REC_SETMAX && ops[1].version == c.max, "C01/C03: empty tail must carry SetMaxVersion(sender max)"); }
             else { assert!(n == 1, "C07: op after a refused SetMaxVersion"); }
@@ -533,7 +534,7 @@ fn c14_scalar() {
         kani::cover!(st == DeltaStatus::ApplyAfterReset, "reset taken");
         kani::cover!(rc.gc > rc.max && st == DeltaStatus::Apply, "mid-reset receiver, incremental");
         if !header_only {
-            assert!(st != DeltaStatus::Reject, "C14: delta computed from the receiver's own digest is refused");
+            assert!(st != DeltaStatus::Reject, "C01/C14: delta computed from the receiver's own digest is refused");
             assert!((st == DeltaStatus::ApplyAfterReset) == (rc.max < s.gc && rc.gc < s.gc), "C14: reset iff both frontier components are below the sender's watermark");
             assert!((after.gc, after.max) > (rc.gc, rc.max), "C01/C14: no strict progress");
             assert!(after.max == s.max, "C01: empty-tail delta must bring the copy to the sender's max version");
@@ -631,10 +632,10 @@ fn gc_step(mask: u8, vmax: u64) {
         if c.e[k].present {
             let collect = c.e[k].status != 0 && now >= ts[k] + grace;
             kani::cover!(collect && now == ts[k] + grace, "entry collected exactly at the grace boundary");
-            if want(P_C06) || want(P_C02) { assert!(a.e[k].present == !collect, "C06: GC removed a live/young entry or kept an expired tombstone"); }
+            if want(P_C06) || want(P_C02) { assert!(a.e[k].present == !collect, "C02/C06: GC removed a live/young entry or kept an expired tombstone"); }
             if collect && c.e[k].version > exp_gc { exp_gc = c.e[k].version; }
-            if !collect && (want(P_C06) || want(P_C04)) { assert!(a.e[k].version == c.e[k].version && a.e[k].status == c.e[k].status, "C06: GC altered a surviving entry"); }
-        } else { assert!(!a.e[k].present, "C06: GC created an entry"); }
+            if !collect && (want(P_C06) || want(P_C04)) { assert!(a.e[k].version == c.e[k].version && a.e[k].status == c.e[k].status, "C04/C06: GC altered a surviving entry"); }
+        } else { assert!(!a.e[k].present, "C02/C03/C04/C06: GC created an entry"); }
         k += 1;
     }
     if want(P_C06) || want(P_C02) { assert!(a.gc == exp_gc, "C06/C02: GC watermark is not max(previous watermark, highest collected version)"); }
